@@ -134,6 +134,20 @@ def scenarios(ctx, thorough):
             for closes in (1, 2):
                 for cb in (("eof", "stay") if not thorough else ("eof", "err", "stay")):
                     scns.append({"driver": drv, "state": st, "closes": closes, "closebeh": cb, "readdelay_us": 40, "before": "", "after": "", "onclose": True})
+    # the transport's own Close reports an error (connection reset by peer, child already reaped) although it did close: whatever
+    # Close returns then, it has shut everything down
+    for drv in ("generic", "network", "netconf"):
+        for st in ("idle", "eof", "inflight", "after-error-op"):
+            for closes in (1, 2):
+                for cb in ("eof", "stay"):
+                    scns.append({"driver": drv, "state": st, "closes": closes, "closebeh": cb, "readdelay_us": 40, "before": "", "after": "", "closeerr": True})
+    # two callers close at the same moment; both are held at the entry of the shutdown until the other is there too
+    for drv in ("generic", "network", "netconf"):
+        for st in ("idle", "inflight", "eof", "data-arriving"):
+            for cb in ("eof", "stay"):
+                for meet in (("C_done", "NC_done") if drv == "netconf" else ("C_done",)):
+                    for rd in ((40, 300) if thorough else (40,)):
+                        scns.append({"driver": drv, "state": st, "closes": 2, "closebeh": cb, "readdelay_us": rd, "before": "", "after": "", "meet": meet})
     # the built-in transports under the same contract (real telnet over loopback, standard SSH against the in-process server)
     for tr in ("telnet", "standard"):
         for st in ("idle", "inflight", "eof"):
